@@ -80,6 +80,16 @@ CLAIMS = {
         note="math.hypot stubbed by contract; geometry triples concrete (keeps E linear); "
              "interpolated segments only via the tracer frame condition",
         ref="§4 C20"),
+    "C15": dict(
+        text="Single-threaded co-simulation of the real startprint/_sendnext/_send/_listen code with a "
+             "Marlin-style firmware model: z3 explores every corruption pattern of the first K "
+             "transmissions and shows frames are N<k> <cmd>*<xor>, numbering restarts after M110, a "
+             "resend request is followed by exactly the requested line and the firmware accepts every "
+             "non-comment line once, in order. Framing with symbolic command text; _checksum translated "
+             "from its AST to z3 bit-vectors and proved to be the XOR of all bytes for 1..8(12) bytes.",
+        note="ONE schedule (sender and reader strictly alternate, threads stubbed): delivery under "
+             "real thread schedules/latencies is not claimed; job text concrete; M110 frame never corrupted",
+        ref="§4 C15"),
     "C07": dict(
         text="Inductive step of I7: after any of 96 call shapes from an arbitrary consistent state "
              "(symbolic feed, power, temperatures, E parameter, tool number) every state property "
